@@ -19,6 +19,14 @@ class Prop:
     def gen(self, rng, tier):
         return []
 
+    def skip(self, why="guard"):
+        """an oracle guard: the case does not have the shape the oracle judges (shrunk case, failed set-up, other API ...).
+        Counted, so that the evidence says how many generated cases were actually judged."""
+        if not hasattr(self, "_skipped"):
+            self._skipped = collections.Counter()
+        self._skipped[why] += 1
+        return []
+
     def oracle(self, case, ops, results):
         """Property oracle on one transcript. -> list of {'msg':..., ...}"""
         return []
@@ -214,7 +222,10 @@ def run_property(prop, tier, seed, replay_path=None):
             raise BuildError("the generator produced no case: nothing would be checked")
 
         # ---- 4./5. run and evaluate
+        prop._skipped = collections.Counter()
         ev = evaluate(prop, cases, bins, driver, workdir)
+        # (the oracle runs on the implementation transcript and on the model transcript of every case: halve)
+        not_judged = {k: (v + 1) // 2 for k, v in prop._skipped.items()}
 
         def pred_oracle(finding_filter, kinds=None):
             def pb(cands):
@@ -375,6 +386,8 @@ def run_property(prop, tier, seed, replay_path=None):
             "traces_validated_against_impl": sum(1 for c in cases if prop.in_model_domain(c)),
             "correspondence_mismatches": len(mism_cases),
             "oracle_failures_unknown": len(unknown_fail),
+            "oracle_guarded_out": dict(sorted(not_judged.items())),
+            "oracle_judged_cases_at_least": max(0, len(cases) - sum(not_judged.values())),
             "distribution": dict(sorted(dist.items())),
             "outside_model": prop.outside_model,
         }
